@@ -50,6 +50,17 @@ type ObjSize struct {
 	Uv  bool `json:"uv"`  // has texture coordinates
 	Nrm bool `json:"nrm"` // has normals
 	NM  int  `json:"nm"`  // material ranges (0: none)
+	// NameLen > 0: the mesh's name has this many characters (line length of its "g" statement)
+	NameLen int `json:"namelen"`
+}
+
+// longName: a name of n characters without blanks.
+func longName(n int, salt int) string {
+	b := make([]byte, n)
+	for i := range b {
+		b[i] = byte('a' + (i*7+salt)%26)
+	}
+	return string(b)
 }
 
 // TextProfile: the size profile of an OBJ text ("ld" case): per group the
@@ -63,6 +74,8 @@ type TextGroup struct {
 	NV  int `json:"nv"`
 	NF  int `json:"nf"`
 	Syn int `json:"syn"` // 0 v, 1 v/vt, 2 v//vn, 3 v/vt/vn
+	// NameLen > 0: the group's name has this many characters
+	NameLen int `json:"namelen"`
 }
 
 type ObjCase struct {
@@ -78,6 +91,7 @@ type ObjCase struct {
 	Cid    *int         `json:"cid,omitempty"`  // the case's number in the run it was recorded in (replays keep it)
 	Io     int          `json:"io"`             // reader variant (iomodes.go)
 	Wio    int          `json:"wio"`            // writer variant
+	Rep    int          `json:"rep"`            // > 1: every call is made this many times on the same input, the last result counts
 }
 
 // ---- projections -----------------------------------------------------------
@@ -150,23 +164,33 @@ func projSrc(name string, m modeling.Mesh, enc Enc) SrcMesh {
 
 func projObs(name string, m modeling.Mesh, enc Enc) ObsMesh {
 	p := ObsMesh{Name: name, Idx: projIdx(m), Pos: [][]int{}, Uv: [][]int{}, Nrm: [][]int{}, Mats: projMats(m)}
+	if len(p.Idx) > capIdx {
+		p.Idx = p.Idx[:capIdx]
+		capHit = true
+	}
+	lim := func(n int) int {
+		if n > capIdx {
+			return capIdx
+		}
+		return n
+	}
 	if m.HasFloat3Attribute(modeling.PositionAttribute) {
 		a := m.Float3Attribute(modeling.PositionAttribute)
-		for i := 0; i < a.Len(); i++ {
+		for i := 0; i < lim(a.Len()); i++ {
 			v := a.At(i)
 			p.Pos = append(p.Pos, enc.ObsVec(v.X(), v.Y(), v.Z()))
 		}
 	}
 	if m.HasFloat2Attribute(modeling.TexCoordAttribute) {
 		a := m.Float2Attribute(modeling.TexCoordAttribute)
-		for i := 0; i < a.Len(); i++ {
+		for i := 0; i < lim(a.Len()); i++ {
 			v := a.At(i)
 			p.Uv = append(p.Uv, enc.ObsVec(v.X(), v.Y()))
 		}
 	}
 	if m.HasFloat3Attribute(modeling.NormalAttribute) {
 		a := m.Float3Attribute(modeling.NormalAttribute)
-		for i := 0; i < a.Len(); i++ {
+		for i := 0; i < lim(a.Len()); i++ {
 			v := a.At(i)
 			p.Nrm = append(p.Nrm, enc.ObsVec(v.X(), v.Y(), v.Z()))
 		}
@@ -380,7 +404,11 @@ func buildSeeded(s ObjSeeded) []obj.ObjMesh {
 			}
 			m = m.SetMaterials(mm)
 		}
-		out = append(out, obj.ObjMesh{Name: names[(i+int(s.Seed))%len(names)], Mesh: m})
+		name := names[(i+int(s.Seed))%len(names)]
+		if len(s.Sizes) > 0 && s.Sizes[i].NameLen > 0 {
+			name = longName(s.Sizes[i].NameLen, i)
+		}
+		out = append(out, obj.ObjMesh{Name: name, Mesh: m})
 	}
 	return out
 }
@@ -418,13 +446,15 @@ type ldLine struct {
 func readBack(text []byte, enc Enc, mode int, path string) (string, string, []ObsMesh, []obj.ObjMesh) {
 	var got []obj.ObjMesh
 	msg, detail := guard(func() error {
-		var err error
-		if mode == RdFile {
-			got, err = obj.Load(path)
-		} else {
-			got, _, err = obj.ReadMesh(wrapReader(text, mode))
-		}
-		return err
+		return repeat(func() error {
+			var err error
+			if mode == RdFile {
+				got, err = obj.Load(path)
+			} else {
+				got, _, err = obj.ReadMesh(wrapReader(text, mode))
+			}
+			return err
+		})
 	})
 	rd := []ObsMesh{}
 	if msg != "" {
@@ -452,12 +482,13 @@ func writeOut(meshes []obj.ObjMesh, mtl string, mode int, savePath string) (stri
 	var text []byte
 	msg, detail := guard(func() error {
 		if savePath != "" {
-			var err error
-			if meshes[0].Name == "" {
-				err = obj.Save(savePath, meshes[0].Mesh)
-			} else { // a map of one: SaveAll's mesh order is the map's, only a single entry is deterministic
-				err = obj.SaveAll(savePath, map[string]modeling.Mesh{meshes[0].Name: meshes[0].Mesh})
-			}
+			err := repeat(func() error { // the same path again: Save replaces the file
+				if meshes[0].Name == "" {
+					return obj.Save(savePath, meshes[0].Mesh)
+				}
+				// a map of one: SaveAll's mesh order is the map's, only a single entry is deterministic
+				return obj.SaveAll(savePath, map[string]modeling.Mesh{meshes[0].Name: meshes[0].Mesh})
+			})
 			if err != nil {
 				return err
 			}
@@ -468,18 +499,20 @@ func writeOut(meshes []obj.ObjMesh, mtl string, mode int, savePath string) (stri
 			text = b
 			return nil
 		}
-		sk := newSink(mode)
-		var err error
-		if len(meshes) == 1 && meshes[0].Name == "" {
-			err = obj.WriteMesh(meshes[0].Mesh, mtl, sk.W)
-		} else {
-			err = obj.WriteMeshes(meshes, mtl, sk.W)
-		}
-		if err != nil {
+		return repeat(func() error {
+			sk := newSink(mode)
+			var err error
+			if len(meshes) == 1 && meshes[0].Name == "" {
+				err = obj.WriteMesh(meshes[0].Mesh, mtl, sk.W)
+			} else {
+				err = obj.WriteMeshes(meshes, mtl, sk.W)
+			}
+			if err != nil {
+				return err
+			}
+			text, err = sk.Bytes()
 			return err
-		}
-		text, err = sk.Bytes()
-		return err
+		})
 	})
 	return msg, detail, text
 }
@@ -492,7 +525,9 @@ func mtlFor(id int) string {
 	return ""
 }
 
-func objIoName(c ObjCase) string { return readerModeName(c.Io) + "/" + writerModeName(c.Wio) }
+func objIoName(c ObjCase) string {
+	return fmt.Sprintf("%s/%s/x%d", readerModeName(c.Io), writerModeName(c.Wio), c.Rep)
+}
 
 // writeMtl: obj.Load insists on the material libraries a text names, and takes
 // every material of the meshes from them (by name). The harness therefore puts
@@ -524,9 +559,14 @@ func runWr(id int, c ObjCase, keep string) wrLine {
 		}
 	}
 	ln := wrLine{K: "wr", Id: id, Src: []SrcMesh{}, Stmts: []Stmt{}, Rd: []ObsMesh{}, Io: objIoName(c)}
+	size, tris := 0, 0
 	for _, m := range meshes {
-		ln.Src = append(ln.Src, projSrc(m.Name, m.Mesh, enc))
+		sm := projSrc(m.Name, m.Mesh, enc)
+		ln.Src = append(ln.Src, sm)
+		size += len(sm.Pos) + len(sm.Uv) + len(sm.Nrm) + len(sm.Idx)/3 + len(sm.Mats) + 1
+		tris += len(sm.Idx) / 3
 	}
+	capStmts, capIdx = 4*size+1000, 3*tris+48
 	mtl := mtlFor(id)
 	dir, objPath, savePath := "", "", ""
 	if c.Io == RdFile || c.Wio == WrFile {
@@ -580,6 +620,13 @@ func runLd(id int, c ObjCase, keep string) ldLine {
 		_ = os.WriteFile(fmt.Sprintf("%s/case%d.obj", keep, id), text, 0o644)
 	}
 	ln.Stmts = Tokenise(text, enc)
+	faces := 0
+	for _, st := range gen {
+		if st.T == "f" {
+			faces++
+		}
+	}
+	capStmts, capIdx = 16*len(gen)+1000, 3*faces+48
 	objPath := ""
 	if c.Io == RdFile {
 		dir, err := caseDir("obj", id)
@@ -611,7 +658,7 @@ func runLd(id int, c ObjCase, keep string) ldLine {
 
 // RunObjCases executes cases (ndjson) on the real code and writes the trace.
 // keep != "": also leave the OBJ texts in that directory (for replays).
-func RunObjCases(in, out, keep string) error {
+func RunObjCases(in, out, keep string, budgetSeconds int) error {
 	fi, err := os.Open(in)
 	if err != nil {
 		return err
@@ -629,6 +676,7 @@ func RunObjCases(in, out, keep string) error {
 	sc.Buffer(make([]byte, 1<<20), 1<<28)
 	id := 0
 	defer removeTmp()
+	stop := newStopper(budgetSeconds)
 	for sc.Scan() {
 		if len(sc.Bytes()) == 0 {
 			continue
@@ -637,6 +685,8 @@ func RunObjCases(in, out, keep string) error {
 		if err := json.Unmarshal(sc.Bytes(), &c); err != nil {
 			return fmt.Errorf("case %d: %w", id, err)
 		}
+		setReps(c.Rep)
+		resetCaps()
 		cid := id
 		if c.Cid != nil { // what varies with the case number (material file argument) is the same in a replay
 			cid = *c.Cid
@@ -654,6 +704,9 @@ func RunObjCases(in, out, keep string) error {
 			return fmt.Errorf("case %d: unknown kind %q", id, c.K)
 		}
 		id++
+		if why := stop.after(); why != "" {
+			return encj.Encode(stopLine{K: "stop", Why: why, Done: id})
+		}
 	}
 	return sc.Err()
 }
